@@ -138,7 +138,7 @@ var propTable = map[string]*propSpec{
 	},
 	"C03": {
 		ID:          "C03",
-		Rules:       []string{"R-TABLEKEY"},
+		Rules:       []string{"R-TABLEKEY", "R-ARITHKIND"},
 		Explanation: "Decides structural necessary conditions of 'tables behave as a map with normalised keys; metamethods only see absent keys': the five mixedTable operations hand the hash part only the normalised key (cross-checked siblings); types with delegated equality have a matching Hash case; removal never rewrites a slot's key (tombstones keep traversal positioned); insertNewKeyValue overwrites a slot only when it is free or after relocating its occupant; SetIndex/Index consult __newindex/__index only after the raw operation found nothing.",
 		NotDecided:  "the collision-chain invariants I1-I3 over all histories, border validity of the length operator, traversal completeness, and value-level equality corners (e.g. integer/float equality near 2^53): these quantify over operation histories and operand values.",
 		Assumptions: []string{"the five operations named are the only entry points from mixedTable into the hash part (checked: each must contain at least one such call)"},
